@@ -84,7 +84,7 @@ pub fn gen_img(r: &mut Rng, entry_code: &[u8], max_segs: u64) -> ImgSpec {
         };
         let memsz = memsz.max(1);
         let flags = r.below(8) as u32;
-        segs.push(SegSpec { vaddr, filesz, memsz, flags, seed: r.next() });
+        segs.push(SegSpec { vaddr, filesz, memsz, flags, seed: r.next(), data: None });
         let span_end = (vaddr + memsz + 0xfff) & !0xfff;
         cursor = span_end + *r.pick(&[0u64, 0, 1, 4]) * 0x1000;
     }
